@@ -63,16 +63,17 @@ class Obsolescence(Harness):
     goals = ["deco.py:obsoletes", "list_of_dicts.py:ListOfDicts._mark_obsolete", "list_of_dicts.py:ListOfDicts.__getattribute__",
              "list_of_dicts.py:ListOfDicts._new"]
     def __init__(self, depth, methods=None):
-        self.depth = depth
+        self.depth = depth; self.methods = methods
         self.name = f"C17.obsolescence.d{depth}"
-        self.bounds = {"derivation steps": depth, "then": "one editing method on any node, then two uses of every node"}
+        self.bounds = {"derivation steps": depth, "then": "one editing method on any node, then two uses of every node",
+                       "deriving methods": methods or "all sharing methods + deepcopy"}
         self.symbolic = []; self.choice_dims = ["target node and method per step", "edited node and editing method"]
     def build(self, ctx):
         steps = []
         nn = 1
         for d in range(self.depth):
             t = choice(f"t{d}", range(nn))
-            m = choice(f"m{d}", SHARING + ["deepcopy"])
+            m = choice(f"m{d}", self.methods or (SHARING + ["deepcopy"]))
             st = {"target": t, "method": m}
             if m in ("add", "extend"): st["other"] = choice(f"o{d}", range(nn))
             steps.append(st); nn += 1
@@ -123,6 +124,28 @@ class Obsolescence(Harness):
                 pass
         return cl
 
+class ObsolescenceLate(Obsolescence):
+    """a list derived AFTER the edit - also from a list that is obsolete by then - is a fresh list: not obsolete, silent,
+    and an edit through it marks it (and warns once) like any other"""
+    def __init__(self, depth):
+        Obsolescence.__init__(self, depth)
+        self.name = f"C17.obsolescence_late.d{depth}"
+        self.bounds = dict(self.bounds, afterwards="one more list derived from any node (copy / slice / filter / sort), used, edited through, used twice")
+    def build(self, ctx):
+        inp = Obsolescence.build(self, ctx)
+        inp["first_use"] = "named"
+        inp["late"] = {"target": choice("late_target", range(len(inp["steps"]) + 1)), "method": choice("late_method", ["copy", "slice", "filter", "sort"])}
+        return inp
+    def spec(self, inp, out):
+        cl = Obsolescence.spec(self, inp, out)
+        if isinstance(out, Raised): return cl
+        cl += [("a list derived after the edit is not obsolete when it is created", T(out["late_born_obsolete"] is False)),
+               ("using it prints no warning", T(out["late_warns_when_fresh"] == 0)),
+               ("an edit through it marks it obsolete", T(out["late_obsolete_after_edit"] is True)),
+               ("the list returned by that edit is not obsolete", T(out["late_child_obsolete"] is False)),
+               ("it then warns exactly once", T(out["late_warns_after_edit"] == 1))]
+        return cl
+
 def harnesses(tier):
     q = tier == "quick"
     hs = []
@@ -133,7 +156,8 @@ def harnesses(tier):
         hs.append(Isolation(LodJoin(kind, 1, 2, 2)))
         hs.append(Isolation(LodJoin(kind, 1, 1 if q else 2, 2, renamed=True)))
     hs.append(DeepcopyIsolation(2 if q else 3))
+    hs.append(ObsolescenceLate(1))
     hs.append(Obsolescence(1))
     hs.append(Obsolescence(2))
-    if not q: hs.append(Obsolescence(3))
+    if not q: hs.append(Obsolescence(3, methods=["copy", "slice", "filter", "sort", "add", "deepcopy"]))     # all 17 methods at depth 3 exceed 200 000 paths
     return hs
